@@ -122,13 +122,22 @@ def parse_terse(out):
     return results
 
 
-def classify(r):
-    """-> 'pass' | 'fail' | 'inconclusive' (+ reason)"""
+def classify(r, ignore=None):
+    """-> 'pass' | 'fail' | 'inconclusive' (+ reason). `ignore`: regexes of failed-check descriptions that are known artefacts of the
+    tool's memory model for this harness (documented per harness in props.py and DESIGN.md); they are dropped before the verdict."""
     if r["status"] is None:
         return "inconclusive", "no verdict (crash, timeout or out of memory)"
     if r["notes"]:
         return "inconclusive", "; ".join(r["notes"][:3])
     descs = r["failed_descriptions"]
+    if ignore:
+        kept = [d for d in descs if not any(re.search(p, d) for p in ignore)]
+        r["ignored_artefacts"] = len(descs) - len(kept)
+        descs = kept
+        if not descs and r["status"].startswith("FAILED") and r["ignored_artefacts"] > 0 and r["failed"] is not None and r["failed"] == r["ignored_artefacts"]:
+            if r["covers"] and r["covers_sat"] < r["covers"]:
+                return "inconclusive", "vacuity: only %d of %d cover witnesses satisfied" % (r["covers_sat"], r["covers"])
+            return "pass", "ignored %d failed check(s) that are artefacts of the tool's allocator model" % r["ignored_artefacts"]
     real_failures = [d for d in descs if "unwinding assertion" not in d]
     if r["status"].startswith("SUCCESSFUL"):
         if r["covers"] and r["covers_sat"] < r["covers"]:
@@ -141,7 +150,7 @@ def classify(r):
     return "inconclusive", "FAILED without a failed check (ERROR/UNDETERMINED status)"
 
 
-def run_harnesses(prop, harnesses, jobs, timeout_s, mem_gb, stubbing=True, tag="k"):
+def run_harnesses(prop, harnesses, jobs, timeout_s, mem_gb, stubbing=True, tag="k", ignore=None):
     """Runs the given harnesses (full names `module::fn`) in ONE cargo-kani invocation with its own target dir."""
     sync_lockfile()
     target = os.path.join(BUILD, "kani-%s" % prop)
@@ -158,7 +167,7 @@ def run_harnesses(prop, harnesses, jobs, timeout_s, mem_gb, stubbing=True, tag="
     for h in harnesses:
         r = res.get(h) or {"harness": h, "status": None, "failed": None, "checks": None, "covers_sat": 0, "covers": 0,
                             "time_s": None, "failed_descriptions": [], "notes": []}
-        verdict, why = classify(r)
+        verdict, why = classify(r, (ignore or {}).get(h))
         if timed_out and r["status"] is None:
             why = "timeout after %ds" % timeout_s
         if r["status"] is None and "error: could not compile" in out:
